@@ -53,7 +53,6 @@ structure JState where
   us : List (Nat × JU) := []
   cyc : Option Nat := none
   mustNotBlock : Option (Nat × Bool) := none
-  expect : Option (Nat × List Char) := none
   bad : List Viol := []                      -- newest first
 
 def getU (s : JState) (u : Nat) : JU :=
@@ -94,19 +93,62 @@ def resync (p : List (Char × Bool)) (text : List Char) : List (Char × Bool) :=
   let raw := crlfToTilde text ++ ['~']
   if raw.isPrefixOf (p.map (·.1)) then p.drop raw.length else p
 
-def judgeStep (s0 : JState) (e : Ev) : JState :=
-  -- a requested command() must be the very next event
-  let s : JState :=
-    match s0.expect with
-    | none => s0
-    | some (t, x) => if e == Ev.ecmd t x then { s0 with expect := none } else { s0.flag (.efun t x) with expect := none }
+/-! ### clause oracle 1: structure of the trace and one command per user per cycle -/
+
+structure SState where
+  cyc : Option Nat := none
+  served : List Nat := []        -- users served in the running cycle
+  bad : List Viol := []          -- newest first
+
+/-- clauses `twice`, `outside`, `crash`, `malformed` -/
+def structStep (s : SState) (e : Ev) : SState :=
+  match e with
+  | .begin n =>
+    { cyc := some n, served := [], bad := if s.cyc.isSome then .malformed "nested begin" :: s.bad else s.bad }
+  | .cmd u _ =>
+    let b1 := if s.cyc.isNone then .outside u :: s.bad else s.bad
+    let b2 := if s.served.contains u then .twice u (s.cyc.getD 0) :: b1 else b1
+    { s with served := u :: s.served, bad := b2 }
+  | .endc n _ _ =>
+    { cyc := none, served := [], bad := if s.cyc != some n then .malformed "end without begin" :: s.bad else s.bad }
+  | .crash w => { s with bad := .crash w :: s.bad }
+  | .other l => { s with bad := .malformed l :: s.bad }
+  | _ => s
+
+def judgeStruct (trace : List Ev) : List Viol := (trace.foldl structStep {}).bad.reverse
+
+/-! ### clause oracle 2: command() is executed at once -/
+
+structure EState where
+  expect : Option (Nat × List Char) := none
+  bad : List Viol := []
+
+/-- clause `efun`: a requested command() on a live object must be the very next event -/
+def efunStep (s : EState) (e : Ev) : EState :=
+  let s1 : EState :=
+    match s.expect with
+    | none => s
+    | some (t, x) => if e = Ev.ecmd t x then { s with expect := none } else { expect := none, bad := .efun t x :: s.bad }
+  match e with
+  | .force _ t x true => { s1 with expect := some (t, x) }
+  | _ => s1
+
+def judgeEfun (trace : List Ev) : List Viol :=
+  let s := trace.foldl efunStep {}
+  let bad : List Viol := match s.expect with
+    | some (t, x) => Viol.efun t x :: s.bad
+    | none => s.bad
+  bad.reverse
+
+/-! ### clause oracle 3: starvation, FIFO, idle wait (needs the bytes sent and consumed per user) -/
+
+def judgeStep (s : JState) (e : Ev) : JState :=
   match e with
   | .conn _ => s
   | .logon u => setU s u { connected := true }
   | .send u d => let j := getU s u; setU s u { j with fresh := j.fresh ++ d.map (fun c => (c, j.charMode)), rawTaint := j.rawTaint || j.charMode }
   | .close u => let j := getU s u; setU s u { j with clientOpen := false }
   | .begin n =>
-    let s := if s.cyc.isSome then s.flag (.malformed "nested begin") else s
     let blocker := (s.us.find? (fun e => live e.2 && complete e.2.charMode e.2.pending)).map
       (fun e => (e.1, e.2.rawTaint || firstLineRaw e.2.pending))
     let us := s.us.map (fun (u, j) =>
@@ -118,9 +160,7 @@ def judgeStep (s0 : JState) (e : Ev) : JState :=
     | some (u, raw), true => s.flag (if raw then .idleWaitRaw n u else .idleWait n u)
     | _, _ => s
   | .cmd u text =>
-    let s := if s.cyc.isNone then s.flag (.outside u) else s
     let j := getU s u
-    let s := if j.served then s.flag (.twice u (s.cyc.getD 0)) else s
     match consume j.charMode j.pending text with
     | some p => setU s u { j with pending := p, served := true, charMode := false, rawTaint := j.rawTaint && !p.isEmpty }
     | none =>
@@ -129,24 +169,21 @@ def judgeStep (s0 : JState) (e : Ev) : JState :=
   | .ecmd _ _ => s
   | .kick _ t ok => if ok then (let j := getU s t; setU s t { j with connected := false }) else s
   | .drop _ t ok => if ok then (let j := getU s t; setU s t { j with connected := false }) else s
-  | .force _ t x ok => if ok then { s with expect := some (t, x) } else s
+  | .force _ _ _ _ => s
   | .gc u r => if r then (let j := getU s u; setU s u { j with charMode := true }) else s
   | .it _ _ => s
   | .endc n _ _ =>
-    let s := if s.cyc != some n then s.flag (.malformed "end without begin") else s
     let starved := s.us.filter (fun e => e.2.eligible && live e.2 && !e.2.served)
     let s := starved.foldl (fun s e =>
       s.flag (if e.2.rawTaint || firstLineRaw e.2.pending then .starvedRaw e.1 n else .starved e.1 n)) s
     { s with cyc := none, mustNotBlock := none }
-  | .crash w => s.flag (.crash w)
-  | .other l => s.flag (.malformed l)
+  | .crash _ => s
+  | .other _ => s
 
-/-- violations on a trace, oldest first; `[]` = the property held -/
+def judgeData (trace : List Ev) : List Viol := (trace.foldl judgeStep {}).bad.reverse
+
+/-- violations on a trace (per clause oracle, oldest first inside each); `[]` = the property held -/
 def judgeEv (trace : List Ev) : List Viol :=
-  let s := trace.foldl judgeStep {}
-  let s := match s.expect with
-    | some (t, x) => s.flag (.efun t x)
-    | none => s
-  s.bad.reverse
+  judgeStruct trace ++ judgeEfun trace ++ judgeData trace
 
 end NV.C12
